@@ -85,10 +85,22 @@ pub struct SchedReader<'a> {
     rng: Rng,
     fault_at: Option<usize>,
     fault_kind: io::ErrorKind,
+    /// how the injected error is built: 0 = io::Error::new(kind, text) (a boxed custom payload),
+    /// 1 = io::Error::from_raw_os_error(EIO) (what a real device gives), 2 = a bare ErrorKind (no payload)
+    fault_repr: u8,
     /// Some(n): every n-th call fails once with ErrorKind::Interrupted and delivers nothing; the
     /// call after it proceeds normally (what a signal does to a blocking read).
     interrupt_every: Option<u64>,
     pub log: Rc<RefCell<ReadLog>>,
+}
+
+/// The text an injected reader error of the given representation displays.
+pub fn fault_text(repr: u8, kind: io::ErrorKind) -> String {
+    match repr {
+        1 => io::Error::from_raw_os_error(libc::EIO).to_string(),
+        2 => io::Error::from(kind).to_string(),
+        _ => READ_MARK.to_string(),
+    }
 }
 
 /// Text of the transient error injected by `with_interrupts`.
@@ -112,7 +124,7 @@ impl<'a> SchedReader<'a> {
             Sched::FaultAt(_, k) => Some(*k),
             _ => None,
         };
-        SchedReader { data, pos: 0, sched, rng: Rng::new(seed), fault_at, fault_kind: io::ErrorKind::Other, interrupt_every, log: Rc::new(RefCell::new(ReadLog::default())) }
+        SchedReader { data, pos: 0, sched, rng: Rng::new(seed), fault_at, fault_kind: io::ErrorKind::Other, fault_repr: 0, interrupt_every, log: Rc::new(RefCell::new(ReadLog::default())) }
     }
     pub fn with_interrupts(mut self, every: u64) -> Self {
         self.interrupt_every = Some(every.max(2));
@@ -124,6 +136,11 @@ impl<'a> SchedReader<'a> {
     }
     pub fn with_fault_kind(mut self, kind: io::ErrorKind) -> Self {
         self.fault_kind = kind;
+        self
+    }
+    /// See `fault_repr`. The text such an error displays is `fault_text(repr, kind)`.
+    pub fn with_fault_repr(mut self, repr: u8) -> Self {
+        self.fault_repr = repr;
         self
     }
     pub fn log_handle(&self) -> Rc<RefCell<ReadLog>> {
@@ -149,7 +166,11 @@ impl<'a> Read for SchedReader<'a> {
         if let Some(k) = self.fault_at {
             if self.pos >= k {
                 log.faults_returned += 1;
-                return Err(io::Error::new(self.fault_kind, READ_MARK));
+                return Err(match self.fault_repr {
+                    1 => io::Error::from_raw_os_error(libc::EIO),
+                    2 => io::Error::from(self.fault_kind),
+                    _ => io::Error::new(self.fault_kind, READ_MARK),
+                });
             }
             limit = limit.min(k);
         }
